@@ -17,6 +17,21 @@ thread_local! {
     /// synchronous wait that can never return
     static EMERGENCY: std::cell::Cell<(usize, usize, usize)> = std::cell::Cell::new((0, 0, 0));
 }
+// the long-lived runner and report path are reachable from statics (so that a
+// process-level leak check does not count them)
+static RUNNER_BOX: std::sync::atomic::AtomicPtr<Runner> = std::sync::atomic::AtomicPtr::new(std::ptr::null_mut());
+static OUT_BOX: std::sync::atomic::AtomicPtr<String> = std::sync::atomic::AtomicPtr::new(std::ptr::null_mut());
+
+fn leak_runner(r: Runner) -> &'static mut Runner {
+    let p = Box::into_raw(Box::new(r));
+    RUNNER_BOX.store(p, std::sync::atomic::Ordering::Relaxed);
+    unsafe { &mut *p }
+}
+fn leak_string(s: String) -> &'static String {
+    let p = Box::into_raw(Box::new(s));
+    OUT_BOX.store(p, std::sync::atomic::Ordering::Relaxed);
+    unsafe { &*p }
+}
 
 /// Called (instead of returning) when the guest sits in a synchronous
 /// `waitable-set.wait` that can never be answered: record the host's trap as
@@ -372,8 +387,8 @@ pub fn main_for(prop: &'static str, rule: &str) {
         let zero_until = r["zero_until"].as_u64().unwrap_or(0) as usize;
         let tail_seed: u64 = r["tail_seed"].as_str().and_then(|s| s.parse().ok()).unwrap_or(0);
         let reuse = r["reuse_handles"].as_bool().unwrap_or(false);
-        let runner: &'static mut Runner = Box::leak(Box::new(Runner::new(prop, rule)));
-        let out_path: &'static String = Box::leak(Box::new(args.out()));
+        let runner: &'static mut Runner = leak_runner(Runner::new(prop, rule));
+        let out_path: &'static String = leak_string(args.out());
         EMERGENCY.with(|e| e.set((runner as *mut Runner as usize, 0, out_path as *const String as usize)));
         runner.reuse = reuse;
         match all.iter().find(|s| s.name == name) {
@@ -407,10 +422,10 @@ pub fn main_for(prop: &'static str, rule: &str) {
         random: args.u64("random", if thorough { 60_000 } else { 4_000 }),
     };
     let only = args.get("scenario").map(|s| s.to_string());
-    let out_path: &'static String = Box::leak(Box::new(args.out()));
+    let out_path: &'static String = leak_string(args.out());
     let leak_clean = args.get("leak-clean").is_some();
     let only_leaky = args.get("only-leaky").is_some();
-    let runner: &'static mut Runner = Box::leak(Box::new(Runner::new(prop, rule)));
+    let runner: &'static mut Runner = leak_runner(Runner::new(prop, rule));
     EMERGENCY.with(|e| e.set((runner as *mut Runner as usize, 0, out_path as *const String as usize)));
     runner.reuse = args.get("reuse").is_some();
     let budget = args.u64("time-budget-s", 0);
